@@ -358,12 +358,22 @@ def execute(sim, scn):
             else:
                 ex = exists(ent, now)
                 wrong_len = bool(more) and len(payload) != size
+                if ent is not None and ent.get("uncertain"):
+                    ex = None
                 if ex is None:
                     sim.probe("lifetime_gray_zone")
+                    would_fit = (num * size == len(ent["data"])) and not wrong_len
+                    if code in (rc.REQUEST_ENTITY_INCOMPLETE, rc.BAD_REQUEST) and not would_fit:
+                        # the refusal is explained by the block itself: whether the state still exists stays open
+                        ent["uncertain"] = True
+                        if mine:
+                            sim.violation("C06/handler-invoked-for-gap-or-overlap", ident)
+                        continue
                     if code == rc.REQUEST_ENTITY_INCOMPLETE:
                         spool.pop(key, None)
                         ex = False
                     else:
+                        ent.pop("uncertain", None)
                         ex = True
                 if not ex:
                     if ent is not None:
